@@ -35,6 +35,9 @@ pub struct ExecConfig {
     /// this many times since the last `reset_work_budget()` (used by the sequential
     /// pre-screen of the expression pool to bound work deterministically)
     pub schedule_call_limit: u64,
+    /// per mille probability that a probe also moves the simulated clock forward by a seeded amount
+    /// (milliseconds to hours): the calling thread was "away for a while"
+    pub clock_jump_permille: u32,
 }
 
 pub const PROBE_SITES: &[&str] = &[
@@ -59,6 +62,7 @@ pub struct ExecStats {
     pub reads: u64,
     pub short_reads: u64,
     pub eintr_reads: u64,
+    pub clock_jumps: u64,
     /// hash of the (task, site) sequence of all scheduling points taken through the shim
     pub interleaving_sig: u64,
 }
@@ -69,6 +73,7 @@ struct State {
     in_force: BTreeMap<usize, u32>,
     forced: BTreeMap<usize, bool>,
     yields_left: u32,
+    clock_draws_left: u32,
     active: bool,
     work: u64,
 }
@@ -80,6 +85,7 @@ std::thread_local! {
         in_force: BTreeMap::new(),
         forced: BTreeMap::new(),
         yields_left: 0,
+        clock_draws_left: 0,
         active: false,
         work: 0,
     });
@@ -109,6 +115,7 @@ pub fn begin_execution(cfg: ExecConfig) {
     STATE.with(|s| {
         let mut s = s.borrow_mut();
         s.yields_left = cfg.probe_yield_budget;
+        s.clock_draws_left = 2000;
         s.cfg = cfg;
         s.stats = ExecStats::default();
         s.in_force.clear();
@@ -150,6 +157,27 @@ pub fn probe(site: &'static str) {
             None => false,
         }
     });
+    // (at most CLOCK_DRAWS coin flips per execution: every flip is a step of the recorded schedule, and a long
+    // scan hits the schedule_at probe millions of times)
+    let jump = STATE.with(|s| {
+        let mut s = s.borrow_mut();
+        if s.active && s.cfg.clock_jump_permille > 0 && s.clock_draws_left > 0 {
+            s.clock_draws_left -= 1;
+            s.cfg.clock_jump_permille
+        } else {
+            0
+        }
+    });
+    if jump > 0 {
+        use shuttle::rand::RngCore;
+        let r = shuttle::rand::thread_rng().next_u64();
+        if (r % 1000) < jump as u64 {
+            // 1 ms, 60 ms, 1.1 s, 61 s, 1 h 1 s, 25 h
+            let d = [1u64, 60, 1_100, 61_000, 3_601_000, 90_000_000][((r >> 16) % 6) as usize];
+            time::advance(std::time::Duration::from_millis(d));
+            STATE.with(|s| s.borrow_mut().stats.clock_jumps += 1);
+        }
+    }
     if !may_yield {
         return;
     }
@@ -342,6 +370,153 @@ pub mod sync {
     impl<T: Sync + Send + 'static> Default for OnceLock<T> {
         fn default() -> Self {
             Self::new()
+        }
+    }
+}
+
+/// `std::time` as the simulator provides it (the generated tree routes `std::time` here): `Instant::now()` and
+/// `SystemTime::now()` read a simulated clock that the harness owns. The clock advances by one microsecond per
+/// reading, by whatever the harness adds between operations (`advance`), and — when the execution's configuration
+/// says so — by a seeded jump at a probe (a thread that was "descheduled for a while").
+pub mod time {
+    use std::cell::Cell;
+    use std::ops::{Add, AddAssign, Sub, SubAssign};
+    pub use std::time::Duration;
+
+    std::thread_local! {
+        // nanoseconds since the simulated boot; one per OS thread = one per forked execution
+        static NOW: Cell<u64> = const { Cell::new(1_000_000_000_000) };
+        static READS: Cell<u64> = const { Cell::new(0) };
+        static JUMPS: Cell<u64> = const { Cell::new(0) };
+    }
+    /// simulated wall clock at boot: 2024-06-01T00:00:00Z
+    const EPOCH_AT_BOOT_NANOS: u128 = 1_717_200_000_000_000_000 - 1_000_000_000_000;
+
+    fn read() -> u64 {
+        READS.with(|r| r.set(r.get() + 1));
+        NOW.with(|n| {
+            n.set(n.get() + 1_000);
+            n.get()
+        })
+    }
+
+    /// harness side: move the simulated clock forward
+    pub fn advance(d: Duration) {
+        JUMPS.with(|j| j.set(j.get() + 1));
+        NOW.with(|n| n.set(n.get().saturating_add(d.as_nanos().min(u64::MAX as u128 / 4) as u64)));
+    }
+    /// harness side: (clock readings, clock jumps) so far in this process
+    pub fn stats() -> (u64, u64) {
+        (READS.with(|r| r.get()), JUMPS.with(|j| j.get()))
+    }
+
+    #[derive(Clone, Copy, Debug, PartialEq, Eq, PartialOrd, Ord, Hash)]
+    pub struct Instant(u64);
+
+    impl Instant {
+        pub fn now() -> Instant {
+            Instant(read())
+        }
+        pub fn elapsed(&self) -> Duration {
+            Instant::now().saturating_duration_since(*self)
+        }
+        pub fn duration_since(&self, earlier: Instant) -> Duration {
+            self.saturating_duration_since(earlier)
+        }
+        pub fn saturating_duration_since(&self, earlier: Instant) -> Duration {
+            Duration::from_nanos(self.0.saturating_sub(earlier.0))
+        }
+        pub fn checked_duration_since(&self, earlier: Instant) -> Option<Duration> {
+            self.0.checked_sub(earlier.0).map(Duration::from_nanos)
+        }
+        pub fn checked_add(&self, d: Duration) -> Option<Instant> {
+            u64::try_from(d.as_nanos()).ok().and_then(|n| self.0.checked_add(n)).map(Instant)
+        }
+        pub fn checked_sub(&self, d: Duration) -> Option<Instant> {
+            u64::try_from(d.as_nanos()).ok().and_then(|n| self.0.checked_sub(n)).map(Instant)
+        }
+    }
+    impl Add<Duration> for Instant {
+        type Output = Instant;
+        fn add(self, d: Duration) -> Instant {
+            self.checked_add(d).expect("overflow when adding duration to instant")
+        }
+    }
+    impl Sub<Duration> for Instant {
+        type Output = Instant;
+        fn sub(self, d: Duration) -> Instant {
+            self.checked_sub(d).expect("overflow when subtracting duration from instant")
+        }
+    }
+    impl Sub<Instant> for Instant {
+        type Output = Duration;
+        fn sub(self, o: Instant) -> Duration {
+            self.saturating_duration_since(o)
+        }
+    }
+    impl AddAssign<Duration> for Instant {
+        fn add_assign(&mut self, d: Duration) {
+            *self = *self + d;
+        }
+    }
+    impl SubAssign<Duration> for Instant {
+        fn sub_assign(&mut self, d: Duration) {
+            *self = *self - d;
+        }
+    }
+
+    #[derive(Clone, Copy, Debug, PartialEq, Eq, PartialOrd, Ord, Hash)]
+    pub struct SystemTime(u128);
+
+    pub const UNIX_EPOCH: SystemTime = SystemTime(0);
+
+    #[derive(Clone, Debug)]
+    pub struct SystemTimeError(Duration);
+    impl SystemTimeError {
+        pub fn duration(&self) -> Duration {
+            self.0
+        }
+    }
+    impl std::fmt::Display for SystemTimeError {
+        fn fmt(&self, f: &mut std::fmt::Formatter<'_>) -> std::fmt::Result {
+            write!(f, "second time provided was later than self")
+        }
+    }
+    impl std::error::Error for SystemTimeError {}
+
+    impl SystemTime {
+        pub const UNIX_EPOCH: SystemTime = SystemTime(0);
+        pub fn now() -> SystemTime {
+            SystemTime(EPOCH_AT_BOOT_NANOS + read() as u128)
+        }
+        pub fn duration_since(&self, earlier: SystemTime) -> Result<Duration, SystemTimeError> {
+            let nanos = |n: u128| Duration::new((n / 1_000_000_000) as u64, (n % 1_000_000_000) as u32);
+            if self.0 >= earlier.0 {
+                Ok(nanos(self.0 - earlier.0))
+            } else {
+                Err(SystemTimeError(nanos(earlier.0 - self.0)))
+            }
+        }
+        pub fn elapsed(&self) -> Result<Duration, SystemTimeError> {
+            SystemTime::now().duration_since(*self)
+        }
+        pub fn checked_add(&self, d: Duration) -> Option<SystemTime> {
+            self.0.checked_add(d.as_nanos()).map(SystemTime)
+        }
+        pub fn checked_sub(&self, d: Duration) -> Option<SystemTime> {
+            self.0.checked_sub(d.as_nanos()).map(SystemTime)
+        }
+    }
+    impl Add<Duration> for SystemTime {
+        type Output = SystemTime;
+        fn add(self, d: Duration) -> SystemTime {
+            self.checked_add(d).expect("overflow when adding duration to time")
+        }
+    }
+    impl Sub<Duration> for SystemTime {
+        type Output = SystemTime;
+        fn sub(self, d: Duration) -> SystemTime {
+            self.checked_sub(d).expect("overflow when subtracting duration from time")
         }
     }
 }
